@@ -40,6 +40,7 @@ def run_one(seed, props):
                                 "--evidence-dir", os.path.join(tmp, "ev")],
                                cwd=VERIF, capture_output=True, text=True)
             lines = [l for l in r.stdout.splitlines() if "VIOLATION" not in l
+                     and "KNOWN-FINDING" not in l and not l.startswith("note")
                      and (" R" in l[:60] or "ANALYSIS" in l)]
             out[p] = (r.returncode, [l[:200] for l in lines
                                      if not l.startswith("[")][:2])
